@@ -689,6 +689,22 @@ func SetCacheKey(f *Function) string {
 	return f.CacheKey
 }
 
+// A single statement lambda body is printed without braces (x=>x+1) unless that text would read back as
+// something else: a body starting with { ({"a":1}["a"]) is a block, an operator binding looser than => takes the
+// lambda as its left operand, and return, break, continue and comments are not expressions.
+func lambdaBodyNeedsBraces(stmt ast.Node) bool {
+	switch v := stmt.(type) {
+	case *ast.ReturnStatement, *ast.ControlExpression, *ast.Comment:
+		return true
+	case *ast.InfixExpression:
+		// x=>y=1 is (x=>y)=1, x=>a||b is (x=>a)||b: everything binding looser than => needs the braces.
+		if p, ok := ast.Precedences[v.Type()]; ok && p < ast.LAMBDA {
+			return true
+		}
+	}
+	return ast.FirstByte(stmt) == '{'
+}
+
 func (f Function) lambdaPrint(ps *ast.PrintState, out *strings.Builder) string {
 	if len(f.Parameters) != 1 {
 		out.WriteString(")=>")
@@ -697,7 +713,8 @@ func (f Function) lambdaPrint(ps *ast.PrintState, out *strings.Builder) string {
 	}
 	needBraces := len(f.Body.Statements) != 1 ||
 		f.Body.Statements[0].Value().Type() == token.LBRACE ||
-		f.Body.Statements[0].Value().Type() == token.LAMBDA
+		f.Body.Statements[0].Value().Type() == token.LAMBDA ||
+		lambdaBodyNeedsBraces(f.Body.Statements[0])
 	if needBraces {
 		out.WriteString("{")
 	}
